@@ -249,6 +249,32 @@ void vf_harness(void) {
 )
 UNITS += [msg_string, hs_names]
 
+# ---- WebSocketMsg::fix(): keeps a NUL behind the payload (so that it can be read as a C string) WITHOUT changing the payload - whatever its last byte is
+fix_unit = Unit(
+    'WebSocketMsg_fix', 'C11',
+    cuts=[Cut('fx', W, r'^WebSocketMsg& WebSocketMsg::fix\(\)\s*$',
+              rules=[(r'_data << byte\(0\);', 'DATA_APPEND0();', None), (r'_data\.resize\(_data\.length\(\) - 1\);', 'DATA_RESIZE(g_len - 1);', None), (r'_data\.length\(\)', 'g_len', None),
+                     (r'_data\.last\(\)', 'g_last', None), (r'_data\[g_len - 1\]', 'g_last', None), (r'return \*this;', 'return;', None)])],
+    text=PRE + r'''
+int g_len, g_len0, g_nul_behind; byte g_last;
+static void DATA_APPEND0(void) { g_len++; g_nul_behind = 0; }                                        /* _data << byte(0): one more element, a zero */
+static void DATA_RESIZE(int m) { __CPROVER_assert(m >= 0 && m <= g_len, "Array::resize: shrinking to a non-negative length"); if (m == g_len - 1 && g_nul_behind == 0) g_nul_behind = 1; else if (m < g_len) g_nul_behind = 0; g_len = m; }
+void WebSocketMsg_fix(void)
+__CPROVER_requires(0 <= g_len && g_len <= 1000000000 && g_len0 == g_len && g_nul_behind == 0)
+/* the payload keeps its length for EVERY content (a binary message may end in 0x00, a one-byte {0x00} message is not empty); a NUL sits in the storage right behind it */
+__CPROVER_ensures(g_len == g_len0 && g_nul_behind == 1)
+__CPROVER_assigns(g_len, g_nul_behind)
+@@fx@@
+void vf_harness(void) { WebSocketMsg_fix(); VF_CANARY(); }
+''',
+    entry='WebSocketMsg_fix',
+    desc='WebSocketMsg::fix(): payload length unchanged for any payload (also one ending in 0x00), a terminating NUL kept behind it',
+    functions=['WebSocketMsg::fix'], trusted=['Array << appends one element; resize(length-1) keeps the storage (C01)'],
+)
+# the socket loop that WebSocket::receive reads payloads with (C10 units): a payload arriving in pieces never takes bytes of the frames queued behind it
+from units.C10 import sock_read as _sr11, sock_read_small as _srs11
+UNITS += [fix_unit, _sr11, _srs11]
+
 # replay: where the trace recipe of a unit does not reproduce (or there is none) the driver's battery runs on the real library: a raw client against the real WebSocketServer,
 # handshake accept key, one masked message of every length-form boundary (125/126/127, 32767/32768, 65535/65536) echoed back, then messages fragmented into 2, 3 and 5 frames
 _bat = replay.battery('C11/driver.cpp', ['battery'])
